@@ -34,6 +34,10 @@ pub trait Connector: Send + Sync {
     fn has_feature(&self, feature: Feature) -> bool {
         self.features().contains(&feature)
     }
+    // names of the connectors this one delegates to (connector groups)
+    fn members(&self) -> &[String] {
+        &[]
+    }
 }
 
 pub type ConnectorRef = Box<dyn Connector>;
